@@ -8,6 +8,15 @@ package main
 //	E  ty cfg evals verdicts tag              a holder struct{ V T `value:tag` }
 //	Q  ty cfg evals verdicts tag              a holder struct{ V T `prefix:tag` }
 //
+// The kind may carry flags after a `+` (the model ignores them: they must not change what is bound):
+//
+//	p   the tagged fields hold NON-ZERO defaults before Run (longer slices, maps with other keys, structs with every
+//	    field set, non-nil pointers, non-zero scalars): the configured value must REPLACE them, not merge into them
+//	d   the holder also has `Dep *vlValueDep `wire:",required=false"`` and a vlValueDep component is registered, so
+//	    that the holder has a Component property group next to the Configuration group; the groups reach the
+//	    processors in map-iteration order, so such a scenario is started vlDepStarts times and all starts must agree
+//	    (a field whose outcome differs between starts is observed as `unstable(a|b)`)
+//
 // ty      S string | I int | J int64 | U uint | D float64 | B bool | A any | P<ty> | L<ty> | M<ty> | T(hexname:ty:hexvalidate,…)
 // cfg     m(hexkey=val,…)   val = z | s<hex> | i<dec> | F<dec> (integer valued float) | f<decimal> | b0 | b1 | l(val,…) | m(hexkey=val,…)
 // evals   e(hexexpr=val|!,…)   what expr.Compile/Run gives DIRECTLY for the expression texts the real run meets
@@ -21,6 +30,8 @@ package main
 //   C17  X (prefix) = the document value converted directly;  V = P;  V = X, else the difference is classified
 //        by the class of the generated value: valuepath-numberlike | -boollike | -quoted | -bracketed | -bigint |
 //        -reexpanded | -empty, anything else valuepath-other / prefix-mismatch / prop-differs.
+//        prefill-merged: a bound field still contains a piece of the default it held before Run.
+//        start-unstable: the same scenario bound different values in different start-ups.
 //   C18  the bound value = the expression evaluated directly with expr on the harness's own substitution of the
 //        placeholders (from the tag's syntax tree, not a regular expression), pushed through
 //        strconv2.FormatAny/ParseAny and mapstructure; Run fails ⇔ that direct path fails or the direct
@@ -713,16 +724,130 @@ func vlYamlDoc(cfg *vlCval) string {
 	return sb.String()
 }
 
-func vlRunHolder(t reflect.Type, tags []string, doc string) (vals []reflect.Value, outcome string) {
+// vlValueDep is the optional dependency of the `d` flag.
+type vlValueDep struct{}
+
+const vlDepStarts = 4
+
+// markers of the defaults of the `p` flag (a scenario whose document or tags contain one is not pre-filled)
+const (
+	vlPfStr   = "pfdflt"
+	vlPfKey   = "pfk"
+	vlPfInt   = 7317731
+	vlPfFloat = 7317731.5
+	vlPfLen   = 8
+)
+
+// vlPrefill stores a non-zero default in v: every scalar a marker, slices longer than any generated list, maps
+// with keys no configuration has, every struct field set, pointers non-nil.
+func vlPrefill(v reflect.Value) {
+	switch v.Kind() {
+	case reflect.String:
+		v.SetString(vlPfStr)
+	case reflect.Int, reflect.Int8, reflect.Int16, reflect.Int32, reflect.Int64:
+		v.SetInt(vlPfInt)
+	case reflect.Uint, reflect.Uint8, reflect.Uint16, reflect.Uint32, reflect.Uint64:
+		v.SetUint(vlPfInt)
+	case reflect.Float32, reflect.Float64:
+		v.SetFloat(vlPfFloat)
+	case reflect.Bool:
+		v.SetBool(true)
+	case reflect.Interface:
+		v.Set(reflect.ValueOf(vlPfStr))
+	case reflect.Pointer:
+		p := reflect.New(v.Type().Elem())
+		vlPrefill(p.Elem())
+		v.Set(p)
+	case reflect.Slice:
+		sl := reflect.MakeSlice(v.Type(), vlPfLen, vlPfLen)
+		for i := 0; i < vlPfLen; i++ {
+			vlPrefill(sl.Index(i))
+		}
+		v.Set(sl)
+	case reflect.Map:
+		m := reflect.MakeMap(v.Type())
+		for _, k := range []string{vlPfKey + "a", vlPfKey + "b"} {
+			e := reflect.New(v.Type().Elem()).Elem()
+			vlPrefill(e)
+			m.SetMapIndex(reflect.ValueOf(k), e)
+		}
+		v.Set(m)
+	case reflect.Struct:
+		for i := 0; i < v.NumField(); i++ {
+			vlPrefill(v.Field(i))
+		}
+	}
+}
+
+// vlHasRemnant: some piece of a vlPrefill default is still inside v.
+func vlHasRemnant(v reflect.Value) bool {
+	if !v.IsValid() {
+		return false
+	}
+	switch v.Kind() {
+	case reflect.String:
+		return v.String() == vlPfStr
+	case reflect.Int, reflect.Int8, reflect.Int16, reflect.Int32, reflect.Int64:
+		return v.Int() == vlPfInt
+	case reflect.Uint, reflect.Uint8, reflect.Uint16, reflect.Uint32, reflect.Uint64:
+		return v.Uint() == vlPfInt
+	case reflect.Float32, reflect.Float64:
+		return v.Float() == vlPfFloat
+	case reflect.Interface, reflect.Pointer:
+		return !v.IsNil() && vlHasRemnant(v.Elem())
+	case reflect.Slice, reflect.Array:
+		for i := 0; i < v.Len(); i++ {
+			if vlHasRemnant(v.Index(i)) {
+				return true
+			}
+		}
+	case reflect.Map:
+		for _, k := range v.MapKeys() {
+			if strings.HasPrefix(fmt.Sprint(k.Interface()), vlPfKey) || vlHasRemnant(v.MapIndex(k)) {
+				return true
+			}
+		}
+	case reflect.Struct:
+		for i := 0; i < v.NumField(); i++ {
+			if vlHasRemnant(v.Field(i)) {
+				return true
+			}
+		}
+	}
+	return false
+}
+
+// vlPrefillSafe: neither the document nor a tag mentions a marker of the defaults.
+func vlPrefillSafe(doc string, texts []string) bool {
+	for _, s := range append([]string{doc}, texts...) {
+		if strings.Contains(s, vlPfStr) || strings.Contains(s, vlPfKey) || strings.Contains(s, strconv.Itoa(vlPfInt)) {
+			return false
+		}
+	}
+	return true
+}
+
+func vlRunHolder(t reflect.Type, tags []string, doc string, prefill, dep bool) (vals []reflect.Value, outcome string) {
 	var fs []reflect.StructField
 	for i, tg := range tags {
 		fs = append(fs, reflect.StructField{Name: fmt.Sprintf("H%d", i), Type: t, Tag: reflect.StructTag(tg)})
 	}
+	comps := []any{nil}
+	if dep {
+		fs = append(fs, reflect.StructField{Name: "Dep", Type: reflect.TypeOf((*vlValueDep)(nil)), Tag: `wire:",required=false"`})
+		comps = append(comps, &vlValueDep{})
+	}
 	holder := reflect.New(reflect.StructOf(fs))
+	comps[0] = holder.Interface()
+	if prefill {
+		for i := range tags {
+			vlPrefill(holder.Elem().Field(i))
+		}
+	}
 	var err error
 	pan := hx.Guard(func() {
 		a := app.NewApp()
-		err = a.Run(app.LogLevel(syslog.LvPanic), app.SetConfigLoader(loader.NewRawLoader([]byte(doc))), app.SetComponents(holder.Interface()))
+		err = a.Run(app.LogLevel(syslog.LvPanic), app.SetConfigLoader(loader.NewRawLoader([]byte(doc))), app.SetComponents(comps...))
 		a.Close()
 	})
 	if pan != nil {
@@ -735,6 +860,67 @@ func vlRunHolder(t reflect.Type, tags []string, doc string) (vals []reflect.Valu
 		vals = append(vals, holder.Elem().Field(i))
 	}
 	return vals, "ok"
+}
+
+// vlObserveOnce: one start-up of the scenario (for several tags that fail together, one holder per tag);
+// remnant = a bound field still contains a piece of its default.
+func vlObserveOnce(t reflect.Type, tagStrs []string, doc string, prefill, dep bool) (obs []string, remnant bool) {
+	obs = make([]string, len(tagStrs))
+	vals, outcome := vlRunHolder(t, tagStrs, doc, prefill, dep)
+	switch {
+	case outcome == "ok":
+		for i := range tagStrs {
+			obs[i] = vlRender(vals[i])
+			remnant = remnant || (prefill && vlHasRemnant(vals[i]))
+		}
+	case len(tagStrs) == 1:
+		obs[0] = outcome
+	default:
+		for i := range tagStrs {
+			v1, o1 := vlRunHolder(t, tagStrs[i:i+1], doc, prefill, dep)
+			if o1 == "ok" {
+				obs[i] = vlRender(v1[0])
+				remnant = remnant || (prefill && vlHasRemnant(v1[0]))
+			} else {
+				obs[i] = o1
+			}
+		}
+	}
+	return obs, remnant
+}
+
+// vlObserve: vlDepStarts start-ups when the holder has both property groups (their order is Go's map order),
+// one otherwise; a field whose outcome is not the same in every start is `unstable(a|b)`.
+func vlObserve(t reflect.Type, tagStrs []string, doc string, prefill, dep bool) (obs []string, remnant, unstable bool) {
+	starts := 1
+	if dep {
+		starts = vlDepStarts
+	}
+	var all [][]string
+	for s := 0; s < starts; s++ {
+		o, rem := vlObserveOnce(t, tagStrs, doc, prefill, dep)
+		all = append(all, o)
+		remnant = remnant || rem
+	}
+	obs = make([]string, len(tagStrs))
+	for i := range tagStrs {
+		seen := map[string]bool{}
+		var distinct []string
+		for _, o := range all {
+			if !seen[o[i]] {
+				seen[o[i]] = true
+				distinct = append(distinct, o[i])
+			}
+		}
+		if len(distinct) == 1 {
+			obs[i] = distinct[0]
+		} else {
+			sort.Strings(distinct)
+			obs[i] = "unstable(" + strings.Join(distinct, "|") + ")"
+			unstable = true
+		}
+	}
+	return obs, remnant, unstable
 }
 
 func vlStructTag(name, text string) string { return name + ":" + strconv.Quote(text) }
@@ -958,7 +1144,23 @@ type vlVcase struct {
 	cons    string      // the validator tag that `args` asks for ("" = none; "-" = bare `validate`)
 	subject *vlCval     // C17: the generated document value (for classification); nil otherwise
 	literal bool        // C17 literal variant: the V tag is a literal text, subject = its intended value
+	prefill bool        // flag p: the fields hold non-zero defaults before Run
+	dep     bool        // flag d: the holder also has an optional component field
 	labels  []string
+}
+
+func vlKindTok(kind string, prefill, dep bool) string {
+	fl := ""
+	if prefill {
+		fl += "p"
+	}
+	if dep {
+		fl += "d"
+	}
+	if fl != "" {
+		return kind + "+" + fl
+	}
+	return kind
 }
 
 func vlEncEvals(es []vlEvalEntry) (string, bool) {
@@ -1134,30 +1336,15 @@ func vlRunCase(c *vlVcase, w *hx.Writer) {
 	for i, tx := range texts {
 		tagStrs = append(tagStrs, vlStructTag(names[i], tx))
 	}
-	obs := make([]string, len(texts))
-	vals, outcome := vlRunHolder(rt, tagStrs, doc)
-	if outcome == "ok" {
-		for i := range texts {
-			obs[i] = vlRender(vals[i])
-		}
-	} else if len(texts) == 1 {
-		obs[0] = outcome
-	} else {
-		for i := range texts {
-			v1, o1 := vlRunHolder(rt, tagStrs[i:i+1], doc)
-			if o1 == "ok" {
-				obs[i] = vlRender(v1[0])
-			} else {
-				obs[i] = o1
-			}
-		}
-	}
+	// defaults only where something must be bound (an optional field for which nothing is configured keeps what it holds)
+	prefill := c.prefill && required && vlPrefillSafe(doc, texts)
+	obs, remnant, unstable := vlObserve(rt, tagStrs, doc, prefill, c.dep)
 
 	var hexTags []string
 	for _, tx := range texts {
 		hexTags = append(hexTags, hx.Hex(tx))
 	}
-	scn := strings.Join(append([]string{c.kind, c.t.code(), c.cfg.tok(), evTok, verdTok}, hexTags...), " ")
+	scn := strings.Join(append([]string{vlKindTok(c.kind, prefill, c.dep), c.t.code(), c.cfg.tok(), evTok, verdTok}, hexTags...), " ")
 	modelled := evOK
 	if c.kind == "V3" && c.subject != nil && (vlHasUnmodelledForModel(c.t, c.subject) || vlNumTextUnmodelled(c.subject)) {
 		modelled = false
@@ -1171,6 +1358,12 @@ func vlRunCase(c *vlVcase, w *hx.Writer) {
 		scn = "# " + scn
 	}
 	cs2 := hx.Case{Scn: scn, Obs: strings.Join(obs, " "), Tags: c.labels}
+	if prefill {
+		cs2.Tags = append(append([]string{}, cs2.Tags...), "prefill")
+	}
+	if c.dep {
+		cs2.Tags = append(append([]string{}, cs2.Tags...), "dep")
+	}
 
 	// ---- oracles
 	{
@@ -1179,8 +1372,19 @@ func vlRunCase(c *vlVcase, w *hx.Writer) {
 				cs2.Oracle = "FAIL valuepath-panic the container panicked"
 			}
 		}
+		// what is bound does not depend on what the field held before, nor on the order in which Go hands out the
+		// property groups
+		special := ""
+		if remnant {
+			special = fmt.Sprintf("FAIL prefill-merged a bound field still contains a piece of its default: %s", strings.Join(obs, " "))
+		} else if unstable {
+			special = fmt.Sprintf("FAIL start-unstable %d start-ups of the same scenario bound different values: %s", vlDepStarts, strings.Join(obs, " "))
+		}
 		switch c.kind {
 		case "V3":
+			if cs2.Oracle == "" {
+				cs2.Oracle = special
+			}
 			cs2.Oracle = vlOracleC17(c, obs, cs2.Oracle)
 		default:
 			d := dir[0]
@@ -1197,12 +1401,17 @@ func vlRunCase(c *vlVcase, w *hx.Writer) {
 				cs2.Oracle = ""
 				if obs[0] != want {
 					sig := "expr-result"
-					if hasValidate && (obs[0] == "err") != (want == "err") {
+					if unstable {
+						sig = "start-unstable"
+					} else if hasValidate && (obs[0] == "err") != (want == "err") {
 						sig = "validate-iff"
 					} else if len(evals) == 0 {
 						sig = "bind-direct"
 					}
 					cs2.Oracle = fmt.Sprintf("FAIL %s field=%s direct=%s tag=%q", sig, obs[0], want, texts[0])
+				}
+				if remnant && want != "panic" {
+					cs2.Oracle = special
 				}
 			}
 		}
@@ -1329,8 +1538,10 @@ func vlValueReplay(scn string, w *hx.Writer) {
 	if !ok || rest != "" || cfg.k != 'm' {
 		return
 	}
-	c := &vlVcase{kind: f[0], t: t, cfg: cfg, labels: []string{"replay"}}
-	want := map[string]int{"V3": 3, "E": 1, "Q": 1}[f[0]]
+	kind, flags, _ := strings.Cut(f[0], "+")
+	c := &vlVcase{kind: kind, t: t, cfg: cfg, labels: []string{"replay"},
+		prefill: strings.Contains(flags, "p"), dep: strings.Contains(flags, "d")}
+	want := map[string]int{"V3": 3, "E": 1, "Q": 1}[kind]
 	if want == 0 || len(f[5:]) != want {
 		return
 	}
@@ -1901,7 +2112,20 @@ func vlGenC17(r *hx.Rng) *vlVcase {
 		labels = append(labels, "trivial")
 	}
 	c.labels = labels
+	vlGenFlagsC17(r, c)
 	return c
+}
+
+// vlGenFlagsC17 (drawn last): about a quarter of the cases bind into fields that already hold defaults (more often
+// for the types a decoder could merge into), one in ten holders also has a component field.
+func vlGenFlagsC17(r *hx.Rng, c *vlVcase) {
+	switch c.t.k {
+	case 'L', 'M', 'T', 'P', 'A':
+		c.prefill = r.P(1, 2)
+	default:
+		c.prefill = r.P(1, 6)
+	}
+	c.dep = r.P(1, 10)
 }
 
 // literal written in a value tag
@@ -1945,6 +2169,7 @@ func vlGenC17Literal(r *hx.Rng) *vlVcase {
 	for _, cl := range vlRiskClasses(v) {
 		c.labels = append(c.labels, "class-"+cl)
 	}
+	vlGenFlagsC17(r, c)
 	return c
 }
 
@@ -2154,6 +2379,7 @@ func vlGenExprCase(r *hx.Rng) *vlVcase {
 		labels = append(labels, "validated")
 	}
 	c.labels = labels
+	c.dep = r.P(3, 10) // drawn last
 	return c
 }
 
@@ -2288,6 +2514,7 @@ func vlGenValidateCase(r *hx.Rng) *vlVcase {
 	}
 	c.cfg = vlCMap(cfg)
 	c.labels = labels
+	c.dep = r.P(3, 10) // drawn last
 	return c
 }
 
@@ -2366,6 +2593,21 @@ func vlValueCorpus(w *hx.Writer) {
 	st := &vlFty{k: 'T', fields: []vlFfield{{"name", vlTS, ""}, {"port", vlTI, ""}, {"tags", vlTLS, ""}, {"inner", &vlFty{k: 'T', fields: []vlFfield{{"on", vlTB, ""}, {"ratio", vlTD, ""}}}, ""}, {"opt", vlTPI, ""}}}
 	vlRunCase(vlC17case(st, vlCMap(map[string]*vlCval{"name": vlCStr("007"), "port": vlCInt(8080), "tags": vlCList(vlCStr("a"), vlCStr("b")), "inner": vlCMap(map[string]*vlCval{"on": vlCBool(true), "ratio": vlCDec("0.25")})}), ""), w)
 	vlRunCase(vlC17case(st, vlCMap(map[string]*vlCval{"port": vlCStr("80"), "extra": vlCInt(1)}), ""), w)
+	// fields that hold defaults before Run: the configured value replaces them (shorter list, other keys, fewer fields)
+	for _, dep := range []bool{false, true} {
+		vlRunCase(vlWith(vlC17case(vlTLI, vlCList(vlCInt(9000)), ""), true, dep), w)
+		vlRunCase(vlWith(vlC17case(vlTLS, vlCList(vlCStr("a"), vlCStr("b")), ""), true, dep), w)
+		vlRunCase(vlWith(vlC17case(vlTMS, vlCMap(map[string]*vlCval{"tier": vlCStr("gold")}), ""), true, dep), w)
+		vlRunCase(vlWith(vlC17case(vlTMA, vlCMap(map[string]*vlCval{"a": vlCInt(1), "d": vlCMap(map[string]*vlCval{"e": vlCBool(true)})}), ""), true, dep), w)
+		vlRunCase(vlWith(vlC17case(st, vlCMap(map[string]*vlCval{"port": vlCInt(8080), "inner": vlCMap(map[string]*vlCval{"on": vlCBool(false)})}), ""), true, dep), w)
+		vlRunCase(vlWith(vlC17case(&vlFty{k: 'P', elem: st}, vlCMap(map[string]*vlCval{"name": vlCStr("n")}), ""), true, dep), w)
+		vlRunCase(vlWith(vlC17case(vlTPI, vlCInt(5), ""), true, dep), w)
+		vlRunCase(vlWith(vlC17case(vlTA, vlCInt(5), ""), true, dep), w)
+		vlRunCase(vlWith(vlC17case(vlTS, vlCStr("plain"), ""), true, dep), w)
+		vlRunCase(vlWith(vlC17case(vlTI, vlCInt(7), ""), true, dep), w)
+		vlRunCase(vlWith(vlC17case(vlTLS, vlCList(), ""), true, dep), w)
+		vlRunCase(vlWith(vlC17case(vlTLS, vlCStr("solo"), ""), true, dep), w)
+	}
 	// literals
 	for _, l := range []struct {
 		t   *vlFty
@@ -2378,7 +2620,15 @@ func vlValueCorpus(w *hx.Writer) {
 		c := &vlVcase{kind: "V3", t: l.t, cfg: vlCMap(map[string]*vlCval{"k": l.v}), subject: l.v, literal: true,
 			tags: [][]vlTnode{{vlTLit(l.lit)}, {vlTLit("k")}, {vlTLit("k")}}, labels: []string{"corpus", "literal"}}
 		vlRunCase(c, w)
+		c2 := *c
+		vlRunCase(vlWith(&c2, true, l.t.k == 'L'), w)
 	}
+}
+
+// vlWith sets the flags of a hand-written case.
+func vlWith(c *vlVcase, prefill, dep bool) *vlVcase {
+	c.prefill, c.dep = prefill, dep
+	return c
 }
 
 func vlExprCase(t *vlFty, cfg map[string]*vlCval, args string, tree ...vlTnode) *vlVcase {
@@ -2423,4 +2673,14 @@ func vlValueExprCorpus(w *hx.Writer) {
 	vlRunCase(vlExprCase(&vlFty{k: 'P', elem: st}, m("a", 80), ",validate", vlTPH("k")), w)
 	q := &vlVcase{kind: "Q", t: st, cfg: vlCMap(m("a", 80)), args: ",validate", tags: [][]vlTnode{{vlTLit("k")}}, labels: []string{"corpus"}}
 	vlRunCase(q, w)
+	// holders that also have a component field: both property groups reach the processors, in either order
+	vlRunCase(vlWith(vlExprCase(vlTI, cfg, "", vlTExpr(vlTPH("a"), vlTLit("+"), vlTPH("b"), vlTLit("*2"))), false, true), w)
+	vlRunCase(vlWith(vlExprCase(vlTB, cfg, "", vlTExpr(vlTPH("a"), vlTLit("+"), vlTPH("b"), vlTLit(">2"))), false, true), w)
+	vlRunCase(vlWith(vlExprCase(vlTS, cfg, "", vlTExpr(vlTLit(`"`), vlTPH("s"), vlTLit(`" + "-" + `), vlTPH("q"))), false, true), w)
+	vlRunCase(vlWith(vlExprCase(vlTS, cfg, "", vlTExpr(vlTLit("1+")), vlTLit("")), false, true), w)
+	vlRunCase(vlWith(vlExprCase(vlTI, cfg, ",validate=min=6", vlTExpr(vlTPH("a"), vlTLit("+"), vlTPH("b"))), false, true), w)
+	vlRunCase(vlWith(vlExprCase(vlTI, cfg, ",validate=min=3", vlTPH("a")), false, true), w)
+	vlRunCase(vlWith(vlExprCase(st, m("a", 80), ",validate", vlTPH("k")), false, true), w)
+	q2 := *q
+	vlRunCase(vlWith(&q2, false, true), w)
 }
